@@ -239,6 +239,18 @@ type tcase struct {
 	checkJS   any
 }
 
+// eff: the hashes the build sees. The parser (asp addStrings) drops empty strings from every string
+// list, so hashes = [""] declares nothing.
+func (t *tcase) eff() []string {
+	out := []string{}
+	for _, h := range t.Declared {
+		if h != "" {
+			out = append(out, h)
+		}
+	}
+	return out
+}
+
 func (t *tcase) target() *e2e.Target {
 	switch t.Shape {
 	case "file1":
@@ -488,6 +500,9 @@ var configs = []config{
 
 var failedRe = regexp.MustCompile(`(?m)^    (//[^\s:]+:[^\s]+)$`)
 
+var dbgMu sync.Mutex
+var dbgN int
+
 type buildObs struct {
 	failed map[string]bool
 	ran    map[string]bool
@@ -503,6 +518,12 @@ func runBuild(repo *e2e.Repo, labels []string) buildObs {
 	}
 	for _, l := range res.Executed {
 		o.ran[l] = true
+	}
+	if d := os.Getenv("C35_DEBUG"); d != "" {
+		dbgMu.Lock()
+		dbgN++
+		os.WriteFile(filepath.Join(d, fmt.Sprintf("%s-%03d.txt", filepath.Base(filepath.Dir(repo.Dir)), dbgN)), []byte(fmt.Sprintf("exit %d\nexecuted %v\n%s", res.Exit, res.Executed, o.text)), 0o644)
+		dbgMu.Unlock()
 	}
 	return o
 }
@@ -574,7 +595,7 @@ func genEpisode(r *lib.Rng, idx, k int) *episode {
 		t.Poison = lib.Pick(r, []string{"none", "replace", "replace", "inplace", "match"})
 		t.Edit = lib.Pick(r, []string{"none", "resplit", "wrong", "fix", "src", "drop", "add-wrong", "reorder"})
 		if t.Poison == "match" {
-			if t.Shape == "file1" && len(t.Declared) > 0 {
+			if t.Shape == "file1" && len(t.eff()) > 0 {
 				// also declare the hash of the content the cache entry will be poisoned with
 				t.Declared = append(t.Declared, lib.Pick(r, []string{"", "sha256: "})+hex.EncodeToString(hashBytes(lib.Pick(r, cfgAlgosOf(ep.Cfg)), []byte(evil))))
 			} else {
@@ -666,7 +687,7 @@ func (ep *episode) run(c *lib.Ctx, base string) {
 			repo.RemovePlzOut()
 			for _, t := range ep.Cases {
 				t.steps = append(t.steps, "SRmOut")
-				if t.Kind == "genrule" && t.lastOK && t.Poison != "none" && len(t.Declared) > 0 {
+				if t.Kind == "genrule" && t.lastOK && t.Poison != "none" && len(t.eff()) > 0 {
 					its, done := poisonCache(repo, t, t.Poison == "inplace")
 					if !done {
 						ep.notes = append(ep.notes, "no cache entry found to poison for "+t.Label)
@@ -675,13 +696,13 @@ func (ep *episode) run(c *lib.Ctx, base string) {
 					}
 					fs := []string{}
 					for i, it := range its {
-						rec := "Some " + coqKey(t.Declared, t.SrcVer)
+						rec := "Some " + coqKey(t.eff(), t.SrcVer)
 						if i == 0 && t.Poison != "inplace" {
 							rec = "None"
 						}
 						fs = append(fs, "{| f_out := "+coqOut(it)+"; f_rec := "+rec+" |}")
 					}
-					t.steps = append(t.steps, lib.App("SPoison", coqKey(t.Declared, t.SrcVer), lib.List(fs)))
+					t.steps = append(t.steps, lib.App("SPoison", coqKey(t.eff(), t.SrcVer), lib.List(fs)))
 					t.trail = append(t.trail, map[string]any{"poison": t.Poison, "entry": its})
 				} else {
 					t.Poison = "none"
@@ -701,18 +722,18 @@ func (ep *episode) run(c *lib.Ctx, base string) {
 		for _, t := range ep.Cases {
 			ok, ran := !o.failed[t.Label], o.ran[t.Label]
 			disk := t.readDisk(repo)
-			t.steps = append(t.steps, lib.App("SBuild", coqDef(t.Declared, t.SrcVer, t.produce())))
+			t.steps = append(t.steps, lib.App("SBuild", coqDef(t.eff(), t.SrcVer, t.produce())))
 			t.obs = append(t.obs, "{| o_ok := "+lib.Bool(ok)+"; o_ran := "+lib.Bool(ran)+"; o_disk := "+coqOuts(disk)+" |}")
 			bw := []string(nil)
 			if !ok {
 				bw = butWas(o.text, t.Label)
 			}
-			t.trail = append(t.trail, map[string]any{"step": step, "declared": append([]string{}, t.Declared...), "src_version": t.SrcVer, "ok": ok, "ran": ran, "disk": disk, "but_was": bw})
+			t.trail = append(t.trail, map[string]any{"step": step, "declared": append([]string{}, t.Declared...), "effective": t.eff(), "src_version": t.SrcVer, "ok": ok, "ran": ran, "disk": disk, "but_was": bw})
 			ep.oracle(c, t, step, ok, ran, disk, o, repo)
 			if step == 1 {
 				ep.checkCase(c, t, ok, bw)
 			}
-			t.defs = append(t.defs, append([]string{}, t.Declared...))
+			t.defs = append(t.defs, t.eff())
 			t.lastOK = ok
 		}
 	}
@@ -730,13 +751,9 @@ func (ep *episode) applyEdit(c *lib.Ctx, t *tcase) {
 	r := t.rng
 	switch t.Edit {
 	case "resplit":
-		if len(t.Declared) > 0 && len(t.Declared[0]) >= 2 && t.lastOK && t.Kind == "genrule" {
+		if len(t.Declared) > 0 && len(t.Declared[0]) >= 2 && t.lastOK && t.Kind == "genrule" && len(t.eff()) == len(t.Declared) {
 			h := t.Declared[0]
 			t.Declared = append([]string{h[:len(h)/2], h[len(h)/2:]}, t.Declared[1:]...)
-			return
-		}
-		if len(t.Declared) == 0 && t.lastOK && t.Kind == "genrule" {
-			t.Declared = []string{""}
 			return
 		}
 		t.Edit = "none"
@@ -777,7 +794,7 @@ func (ep *episode) checkCase(c *lib.Ctx, t *tcase, ok bool, bw []string) {
 	if !ok {
 		verdict = lib.App("Reject", lib.StrList(bw))
 	}
-	term := lib.App("CCheck", coqCfg(ep.Cfg), coqOuts(items), lib.StrList(t.Declared), lib.List(tbl.items), verdict)
+	term := lib.App("CCheck", coqCfg(ep.Cfg), coqOuts(items), lib.StrList(t.eff()), lib.List(tbl.items), verdict)
 	js := map[string]any{"kind": "check", "repo": ep.Index, "config": ep.Cfg, "target": t.Label, "shape": t.Shape, "outputs": items, "declared": t.Declared, "ok": ok, "but_was": bw}
 	t.checkTerm, t.checkJS, t.checkKey = term, js, fmt.Sprint("chk", ep.Cfg, items, t.Declared)
 }
@@ -815,7 +832,7 @@ func (ep *episode) oracle(_ *lib.Ctx, t *tcase, step int, ok, ran bool, disk []i
 	t.sets = append(t.sets, t.produce())
 	in := map[string]any{"repo": ep.Index, "config": ep.Cfg, "target": t.Label, "shape": t.Shape, "kind": t.Kind, "step": step,
 		"declared": t.Declared, "poison": t.Poison, "edit": t.Edit, "ok": ok, "ran": ran, "disk": disk, "history": append([]map[string]any{}, t.trail...)}
-	declared := t.Declared
+	declared := t.eff()
 	c.Oracle()
 	c.Hist("step_outcome", fmt.Sprintf("step%d/%s/ok=%v/ran=%v", step, t.Kind, ok, ran))
 	if ok {
@@ -848,6 +865,8 @@ func (ep *episode) oracle(_ *lib.Ctx, t *tcase, step int, ok, ran bool, disk []i
 		// (3) failure only for a declared mismatch; and nothing is left behind
 		if len(declared) == 0 {
 			c.Fail("failed-without-hashes", fmt.Sprintf("%s failed although it declares no hashes: %s", t.Label, tailStr(o.text, 600)), in)
+		} else if oracleMatches(ep.Cfg, t.produce(), declared) && step == 3 && t.lastOK && (t.Poison == "replace" || t.Poison == "inplace") {
+			c.Fail("rebuild-after-rejected-restore-uses-stale-output-hash", fmt.Sprintf("%s: its tampered cache entry was rejected and the target rebuilt, but the rebuilt outputs were compared with the memoised output hash of the rejected artifacts; %q matches plz's own output hash of the real outputs and a clean build accepts it: %s", t.Label, declared, tailStr(o.text, 400)), in)
 		} else if oracleMatches(ep.Cfg, t.produce(), declared) {
 			c.Fail("rejected-matching-hash", fmt.Sprintf("%s failed although a declared hash matches what its command produces: %s", t.Label, tailStr(o.text, 600)), in)
 		}
@@ -994,7 +1013,7 @@ const corpusBuild = `genrule(
     outs = ["o.txt"],
     output_dirs = ["_o"],
     cmd = "echo ran >> %s && echo hello > $OUT && mkdir _o && echo extra > _o/extra.txt",
-    hashes = ["sha1: c5535b960361016176581d1fe97a7e0aac1fb525"],
+    hashes = ["sha1: %s"],
 )
 `
 
@@ -1003,9 +1022,14 @@ func corpus(c *lib.Ctx, base string) {
 	repo.CacheDir = filepath.Join(base, "corpus-cache")
 	repo.Write(&e2e.Spec{Pkgs: map[string]*e2e.Pkg{}, Config: []string{"[build]", "hashfunction = sha1"}})
 	os.MkdirAll(filepath.Join(repo.Dir, "p"), 0o755)
-	text := fmt.Sprintf(corpusBuild, repo.LogPath)
-	if data, err := os.ReadFile(filepath.Join(os.Getenv("VERIF_DIR"), "corpus", "C03", "prefixed_hashes_output_dirs.BUILD")); err == nil && strings.Contains(string(data), "sha1: c5535b96") {
-		c.Note("corpus witness /verif/corpus/C03/prefixed_hashes_output_dirs.BUILD present")
+	want := hex.EncodeToString(combined("sha1", []item{{Name: "extra.txt", Data: "extra\n"}, {Name: "o.txt", Data: "hello\n"}}))
+	text := fmt.Sprintf(corpusBuild, repo.LogPath, want)
+	if data, err := os.ReadFile(filepath.Join(os.Getenv("VERIF_DIR"), "corpus", "C35", "prefixed_hashes_output_dirs.BUILD")); err == nil {
+		if strings.Contains(string(data), "sha1: "+want) {
+			c.Note("corpus witness corpus/C35/prefixed_hashes_output_dirs.BUILD replayed (hash %s)", want)
+		} else {
+			c.Note("corpus witness corpus/C35/prefixed_hashes_output_dirs.BUILD does not carry the hash %s", want)
+		}
 	}
 	os.WriteFile(filepath.Join(repo.Dir, "p", "BUILD"), []byte(text), 0o644)
 	first := repo.Run(120*time.Second, "build", "//p:t")
@@ -1031,7 +1055,7 @@ func main() {
 		base := e2e.Scratch("c35")
 		defer os.RemoveAll(base)
 		corpus(c, base)
-		nrepos := c.Scale(24, 240)
+		nrepos := c.Scale(12, 200)
 		eps := make([]*episode, nrepos)
 		for i := range eps {
 			eps[i] = genEpisode(c.Rng.Fork(), i, 8)
